@@ -39,6 +39,9 @@ func ecHashBySize(bits int) crypto.Hash {
 // RSASign is the ISO/IEC 9796-2 scheme 1 signer (set by aa_rsa.go from ref/iso9796).
 var RSASign func(n, d *big.Int, m1, m2 []byte, h crypto.Hash, trailer int) ([]byte, error)
 
+// RSAM1Len gives the canonical length of the recoverable part M1.
+var RSAM1Len func(n *big.Int, h crypto.Hash, trailer int) int
+
 // AALast is ground truth about the last INTERNAL AUTHENTICATE.
 type AALast struct {
 	Challenge []byte
@@ -60,17 +63,10 @@ func (c *Chip) doInternalAuthenticate(p *apdu.Command, protected bool) ([]byte, 
 	var sig []byte
 	if k.N != nil {
 		h := trailerHash(k.Trailer)
-		kbytes := (k.N.BitLen() + 7) / 8
-		// largest byte-aligned representative below the modulus
-		flen := kbytes
-		if k.N.BitLen()%8 != 0 {
-			flen = kbytes - 1
+		if RSAM1Len == nil {
+			return nil, 0x6A80
 		}
-		tl := 1
-		if k.Trailer != 0xBC {
-			tl = 2
-		}
-		m1len := flen - 1 - h.Size() - tl
+		m1len := RSAM1Len(k.N, h, k.Trailer)
 		if m1len < 0 {
 			return nil, 0x6A80
 		}
